@@ -2,7 +2,8 @@
 From Coq Require Import List NArith ZArith String.
 From Tongo Require Import Lib.Bits Lib.Sx Harness.H06 Harness.H07 Harness.H01 Harness.H18
   Harness.H05 Harness.H13 Harness.H19 Harness.H12 Harness.H03 Harness.H04
-  Harness.H11 Harness.H16 Harness.H17 Harness.H20 Harness.H08 Harness.H10.
+  Harness.H11 Harness.H16 Harness.H17 Harness.H20 Harness.H08 Harness.H10
+  Harness.H07p Harness.H09 Harness.H14 Harness.H15.
 Import ListNotations.
 Local Open Scope string_scope.
 
@@ -97,4 +98,18 @@ Definition run (name : string) (a : sx) : sx :=
   else if is "c10.enclen" then H10.run_enclen a
   else if is "c03.cur" then H03.run_cur a
   else if is "c04.cur" then H04.run_cur4 a
+  else if is "c06.derived" then H06.run_derived a
+  else if is "c18.multi" then H18.run_multi a
+  else if is "c07.lines" then H07p.run_lines a
+  else if is "c09.tl" then H09.run_tl a
+  else if is "c09.tlreq" then H09.run_tlreq a
+  else if is "c09.tlb" then H09.run_tlb a
+  else if is "c14.send" then H14.run_send a
+  else if is "c14.body" then H14.run_body a
+  else if is "c14.verify" then H14.run_verify a
+  else if is "c14.v5verify" then H14.run_v5verify a
+  else if is "c14.decode" then H14.run_decode a
+  else if is "c15.addr" then H15.run_addr a
+  else if is "c15.next" then H15.run_next a
+  else if is "c15.send" then H15.run_send15 a
   else sx_err "unknown case kind".
